@@ -69,7 +69,17 @@ class ClassInfo(object):
         self.properties = {}     # name -> (getter name, setter name or None)
         self.bases = [ast.unparse(b) for b in node.bases]
         self.class_attrs = {}
-        for st in node.body:
+        def class_stmts(body):
+            # methods may be defined under `if sys.version_info ...:` in the class body; the
+            # later (else) definition wins, as it does at run time on Python 3
+            for st in body:
+                if isinstance(st, ast.If):
+                    for x in class_stmts(st.body): yield x
+                    for x in class_stmts(st.orelse): yield x
+                else:
+                    yield st
+        self.body = list(class_stmts(node.body))
+        for st in self.body:
             if isinstance(st, ast.FunctionDef):
                 self.methods[st.name] = FuncInfo(module, self, st.name, st)
             elif isinstance(st, ast.Assign) and len(st.targets) == 1 and \
@@ -88,7 +98,7 @@ class ClassInfo(object):
                 else:
                     self.class_attrs[tname] = v
         # decorator-style properties
-        for st in node.body:
+        for st in self.body:
             if isinstance(st, ast.FunctionDef):
                 for d in st.decorator_list:
                     if isinstance(d, ast.Name) and d.id == 'property':
